@@ -30,7 +30,8 @@ OPS = ["kmeans_fit", "kmeans_use", "gmm_ml_fit", "gmm_map_fit", "ubm_stats", "st
 
 
 def g_pool(draw):
-    c = gen.fa_case(draw, max_sessions=1, maxC=2, maxF=3)
+    # features in any unit: standard deviations from 1e-6 (variances of 1e-12) to 1e3
+    c = gen.fa_case(draw, max_sessions=1, maxC=2, maxF=3, scale_lo=-6, scale_hi=3)
     r = gen.rng(draw)
     p = c["ubm"]
     C, F = p["C"], p["F"]
